@@ -153,12 +153,19 @@ func NewASReq(realm string, c *config.Config, cname, sname types.PrincipalName) 
 }
 
 // NewTGSReq generates a new KRB_TGS_REQ struct.
+// The authenticator names the realm of the TGT as the client's realm, which is right only while the TGT was issued by the
+// client's own realm. Use NewTGSReqForClient when the TGT may have been issued by another realm.
 func NewTGSReq(cname types.PrincipalName, kdcRealm string, c *config.Config, tgt Ticket, sessionKey types.EncryptionKey, sname types.PrincipalName, renewal bool) (TGSReq, error) {
+	return NewTGSReqForClient(cname, tgt.Realm, kdcRealm, c, tgt, sessionKey, sname, renewal)
+}
+
+// NewTGSReqForClient generates a new KRB_TGS_REQ struct for the client cname of the realm crealm.
+func NewTGSReqForClient(cname types.PrincipalName, crealm, kdcRealm string, c *config.Config, tgt Ticket, sessionKey types.EncryptionKey, sname types.PrincipalName, renewal bool) (TGSReq, error) {
 	a, err := tgsReq(cname, sname, kdcRealm, renewal, c)
 	if err != nil {
 		return a, err
 	}
-	err = a.setPAData(tgt, sessionKey)
+	err = a.setPAData(crealm, tgt, sessionKey)
 	return a, err
 }
 
@@ -170,7 +177,7 @@ func NewUser2UserTGSReq(cname types.PrincipalName, kdcRealm string, c *config.Co
 	}
 	a.ReqBody.AdditionalTickets = []Ticket{verifyingTGT}
 	types.SetFlag(&a.ReqBody.KDCOptions, flags.EncTktInSkey)
-	err = a.setPAData(clientTGT, sessionKey)
+	err = a.setPAData(clientTGT.Realm, clientTGT, sessionKey)
 	return a, err
 }
 
@@ -225,7 +232,7 @@ func tgsReq(cname, sname types.PrincipalName, kdcRealm string, renewal bool, c *
 	}, nil
 }
 
-func (k *TGSReq) setPAData(tgt Ticket, sessionKey types.EncryptionKey) error {
+func (k *TGSReq) setPAData(crealm string, tgt Ticket, sessionKey types.EncryptionKey) error {
 	// Marshal the request and calculate checksum
 	b, err := k.ReqBody.Marshal()
 	if err != nil {
@@ -242,7 +249,8 @@ func (k *TGSReq) setPAData(tgt Ticket, sessionKey types.EncryptionKey) error {
 
 	// Form PAData for TGS_REQ
 	// Create authenticator
-	auth, err := types.NewAuthenticator(tgt.Realm, k.ReqBody.CName)
+	// The authenticator must name the client's realm (RFC 4120 section 3.2.3), not the realm that issued the TGT.
+	auth, err := types.NewAuthenticator(crealm, k.ReqBody.CName)
 	if err != nil {
 		return krberror.Errorf(err, krberror.KRBMsgError, "error generating new authenticator")
 	}
